@@ -118,7 +118,7 @@ def harness_positions(ctx, case):
 
 
 # ------------------------------------------------------------------ normalize
-KINDS = ['a', 'b', '.', '..']
+KINDS = ['a', 'b', '.', '..', '']          # '' = a doubled slash
 
 
 def ref_normalize(comps):
@@ -127,7 +127,7 @@ def ref_normalize(comps):
         if c == '..':
             if st:
                 st.pop()
-        elif c == '.':
+        elif c in ('.', ''):
             continue
         else:
             st.append(c)
@@ -147,9 +147,10 @@ def harness_normalize(ctx, case):
     r2 = ctx.call('path::normalize', [r1])
     want = PathV(True, ref_normalize(comps))
     spelled = '/' + '/'.join(comps)
-    if r1 != want:
+    # the *spelling* matters: the run-time import cache and import stack are keyed by the normalised path's string
+    if r1 != want or r1.to_str() != want.to_str():
         out['violations'].append({'key': 'C09:normalize:wrong-result', 'what': 'normalize(%s) = %s, reference %s' % (spelled, r1.to_str(), want.to_str()), 'case': {'kind': 'normalize', 'path': spelled}})
-    elif r2 != r1:
+    elif r2 != r1 or r2.to_str() != r1.to_str():
         out['violations'].append({'key': 'C09:normalize:not-idempotent', 'what': 'normalize is not idempotent on %s' % spelled, 'case': {'kind': 'normalize', 'path': spelled}})
     else:
         out['sample'] = {'path': spelled, 'normalized': r1.to_str()}
@@ -164,6 +165,10 @@ HOOK_PROJECTS = {
                  'r.ucg': 'let s = import "./sub/../shared.ucg";\n', 'shared.ucg': 'let v = TRACE %s;\n' % SP.ph(1)}, 'ok', {'/cwd/shared.ucg': 1}),
     'import-in-func-called-twice': ({'main.ucg': 'let f = func (x) => [(import "lib/x.ucg").v, x];\nlet r = [f(1), f(2)];\n', 'lib/x.ucg': 'let v = TRACE %s;\n' % SP.ph(1)}, 'ok', {'/cwd/lib/x.ucg': 1}),
     'nested-dirs': ({'main.ucg': 'let a = import "d1/a.ucg";\nlet r = a.b.v;\n', 'd1/a.ucg': 'let b = import "../d2/b.ucg";\n', 'd2/b.ucg': 'let v = TRACE %s;\n' % SP.ph(1)}, 'ok', {'/cwd/d2/b.ucg': 1}),
+    'nested-dot-spelling': ({'main.ucg': 'let m = import "lib/mid.ucg";\nlet a = import "lib/x.ucg";\nlet r = [m.l.v, a.v];\n', 'lib/mid.ucg': 'let l = import "./x.ucg";\n',
+                             'lib/x.ucg': 'let v = TRACE %s;\n' % SP.ph(1)}, 'ok', {'/cwd/lib/x.ucg': 1}),
+    'doubled-slash-spelling': ({'main.ucg': 'let a = import "lib//x.ucg";\nlet b = import "lib/x.ucg";\nlet r = [a.v, b.v];\n', 'lib/x.ucg': 'let v = TRACE %s;\n' % SP.ph(1)}, 'ok', {'/cwd/lib/x.ucg': 1}),
+    'cycle-closing-through-dot': ({'main.ucg': 'let a = (import "a.ucg").x;\n', 'a.ucg': 'let x = (import "b.ucg").y;\n', 'b.ucg': 'let y = (import "./a.ucg").x;\n'}, 'cycle', {}),
     'cycle-2': ({'main.ucg': 'let a = import "a.ucg";\n', 'a.ucg': 'let b = import "b.ucg";\n', 'b.ucg': 'let a = import "./a.ucg";\n'}, 'cycle', {}),
     'cycle-self': ({'main.ucg': 'let a = import "./main.ucg";\n'}, 'cycle', {}),
     'cycle-3-respelled': ({'main.ucg': 'let a = import "a.ucg";\n', 'a.ucg': 'let b = import "d/b.ucg";\n', 'd/b.ucg': 'let c = import "../c.ucg";\n', 'c.ucg': 'let a = import "d/../a.ucg";\n'}, 'cycle', {}),
